@@ -86,28 +86,6 @@ Proof. intros. apply forallb_forall. intros x Hx. apply in_zrange in Hx. unfold 
 Lemma Forall_zrange (P : Z -> Prop) a b : (forall x, a <= x < b -> P x) -> Forall P (zrange a b).
 Proof. intro H. apply Forall_forall. intros x Hx. apply H, in_zrange, Hx. Qed.
 
-(* ------------------------------------------------------------ the passive tag *)
-Definition same_tag (t t' : ptag) : Prop :=
-  p_maxr t' = p_maxr t /\ p_maxw t' = p_maxw t /\ p_rw t' = p_rw t.
-
-Lemma p_read_range t a b : p_budget t <> 0 -> 0 <= a < b -> b - a <= p_maxr t -> b - a <= 80 -> b <= 65536 ->
-  16 * b <= len (p_mem t) -> p_read t (zrange a b) = (Ok (slice (p_mem t) (16 * a) (16 * b)), t).
-Proof.
-  intros Hb Ha Hr H80 H64 Hm. unfold p_read.
-  destruct (rd_frame_ok p_idm (zrange a b)) as (f & ->);
-    [reflexivity | apply Forall_zrange; lia | rewrite zrange_len'; lia |].
-  unfold p_dead. replace (p_budget t =? 0) with false by lia.
-  rewrite zrange_len' by lia. rewrite forallb_blk_ok by lia.
-  replace ((1 <=? b - a) && (b - a <=? p_maxr t) && true) with true by lia.
-  now rewrite flat_blk_get_range by lia.
-Qed.
-
-(* a write command the tag accepts, independent of the memory contents *)
-Definition cmd_ok (t : ptag) (c : list Z * list Z) : Prop :=
-  let (bl, d) := c in
-  (exists f, wr_frame p_idm bl d = Ok f) /\ 1 <= len bl <= p_maxw t /\
-  Forall (fun b => 0 <= b /\ 16 * (b + 1) <= len (p_mem t)) bl /\ len d = 16 * len bl.
-
 Definition apply_cmd (m : list Z) (c : list Z * list Z) : list Z := blks_put m (fst c) (snd c).
 Definition apply_cmds (m : list Z) (cs : list (list Z * list Z)) : list Z := fold_left apply_cmd cs m.
 
@@ -137,77 +115,6 @@ Proof.
   assert (Ht : len (take 16 data) = 16) by (apply len_take; lia).
   assert (Hs : len (splice m (16 * b) (take 16 data)) = len m) by (apply len_splice; lia).
   rewrite IH; [apply take_splice_lo; lia | rewrite Hs; exact Hr | lia | rewrite len_drop; lia].
-Qed.
-
-Lemma p_write_ok t c : cmd_ok t c -> p_rw t = true -> p_budget t <> 0 ->
-  exists t', p_write t (fst c) (snd c) = (Ok tt, t') /\ same_tag t t' /\ p_mem t' = apply_cmd (p_mem t) c /\
-             p_budget t' = (if p_budget t <? 0 then p_budget t else p_budget t - 1) /\ p_log t' = c :: p_log t.
-Proof.
-  destruct c as [bl d]. intros ((f & Hf) & Hn & Hb & Hd) Hrw Hbud. cbn [fst snd]. unfold p_write. rewrite Hf.
-  unfold p_dead. replace (p_budget t =? 0) with false by lia. rewrite Hrw.
-  assert (Hfb : forallb (blk_ok (p_mem t)) bl = true).
-  { apply forallb_forall. intros x Hx. rewrite Forall_forall in Hb. specialize (Hb x Hx). unfold blk_ok, nblocks. lia. }
-  rewrite Hfb. replace (true && (1 <=? len bl) && (len bl <=? p_maxw t) && true && (len d =? 16 * len bl)) with true by lia.
-  eexists. split; [reflexivity|]. cbn. unfold same_tag. cbn. auto.
-Qed.
-Lemma p_write_dead t bl d : (exists f, wr_frame p_idm bl d = Ok f) -> p_budget t = 0 ->
-  p_write t bl d = (Err (TagCommandError 0), t).
-Proof. intros (f & Hf) Hb. unfold p_write. rewrite Hf. unfold p_dead. now replace (p_budget t =? 0) with true by lia. Qed.
-
-Definition cmds_ok (t : ptag) (cs : list (list Z * list Z)) : Prop := Forall (cmd_ok t) cs.
-
-Lemma cmd_ok_same t t' c : same_tag t t' -> len (p_mem t') = len (p_mem t) -> cmd_ok t c -> cmd_ok t' c.
-Proof. destruct c as [bl d]. intros (_ & Hw & _) Hl (Hf & Hn & Hb & Hd). unfold cmd_ok. rewrite Hw, Hl. auto. Qed.
-Lemma apply_cmd_len t c : cmd_ok t c -> len (apply_cmd (p_mem t) c) = len (p_mem t).
-Proof. destruct c as [bl d]. intros (_ & _ & Hb & Hd). unfold apply_cmd. cbn [fst snd]. apply blks_put_len; auto. Qed.
-
-(* running a command list with a power-cut budget *)
-Lemma run_cmds_budget : forall cs t, cmds_ok t cs -> p_rw t = true ->
-  let k := p_budget t in
-  let n := Z.of_nat (length cs) in
-  exists t', same_tag t t' /\
-    (if (k <? 0) || (n <=? k)
-     then run_cmds ptag p_write t cs = (Ok tt, t') /\ p_mem t' = apply_cmds (p_mem t) cs /\
-          p_budget t' = (if k <? 0 then k else k - n)
-     else run_cmds ptag p_write t cs = (Err (TagCommandError 0), t') /\
-          p_mem t' = apply_cmds (p_mem t) (firstn (Z.to_nat k) cs)) /\
-    p_log t' = rev (firstn (if k <? 0 then length cs else Z.to_nat k) cs) ++ p_log t.
-Proof.
-  induction cs as [|c r IH]; intros t Hok Hrw k n.
-  - exists t. split; [unfold same_tag; auto|]. subst n. cbn [length Z.of_nat].
-    replace ((k <? 0) || (0 <=? k)) with true by lia. cbn. repeat split; auto.
-    + destruct (k <? 0); lia.
-    + destruct (k <? 0); cbn; [reflexivity | now rewrite firstn_nil].
-  - inversion Hok as [|? ? Hc Hr]; subst.
-    destruct (Z.eq_dec k 0) as [Hk0|Hk0].
-    + (* dead before the first command *)
-      exists t. split; [unfold same_tag; auto|]. subst n. cbn [length]. subst k.
-      replace ((p_budget t <? 0) || (Z.of_nat (S (length r)) <=? p_budget t)) with false by lia.
-      rewrite Hk0. cbn [Z.to_nat firstn]. split; [|reflexivity].
-      destruct c as [bl d]. cbn [run_cmds]. destruct Hc as (Hf & _). rewrite p_write_dead by auto. split; reflexivity.
-    + destruct (p_write_ok t c Hc Hrw Hk0) as (t1 & Hw & Hs & Hm & Hb & Hl).
-      assert (Hlen : len (p_mem t1) = len (p_mem t)) by (rewrite Hm; apply apply_cmd_len; exact Hc).
-      assert (Hok1 : cmds_ok t1 r).
-      { eapply Forall_impl; [|exact Hr]. intros c0 H0. eapply cmd_ok_same; eauto. }
-      assert (Hrw1 : p_rw t1 = true) by (destruct Hs as (_ & _ & ->); exact Hrw).
-      destruct (IH t1 Hok1 Hrw1) as (t' & Hs' & Hrun & Hlog).
-      exists t'. split.
-      { destruct Hs as (A & B & C), Hs' as (A' & B' & C'). unfold same_tag. rewrite A', B', C'. auto. }
-      destruct c as [bl d]. cbn [run_cmds]. cbn [fst snd] in Hw. rewrite Hw.
-      subst n. cbn [length]. rewrite Nat2Z.inj_succ. fold k in Hb.
-      destruct (k <? 0) eqn:Ek.
-      * rewrite Hb in Hrun, Hlog. rewrite Ek in Hrun, Hlog. cbn [orb] in *. destruct Hrun as (R1 & R2 & R3).
-        split; [repeat split; auto; rewrite R2, Hm; reflexivity|].
-        rewrite Hlog, Hl. cbn [firstn rev]. now rewrite <- app_assoc.
-      * rewrite Hb in Hrun, Hlog. replace (k - 1 <? 0) with false in * by lia. cbn [orb] in *.
-        destruct (Z.succ (Z.of_nat (length r)) <=? k) eqn:En.
-        -- replace (Z.of_nat (length r) <=? k - 1) with true in Hrun by lia. destruct Hrun as (R1 & R2 & R3).
-           split; [repeat split; auto; [rewrite R2, Hm; reflexivity | lia]|].
-           rewrite Hlog, Hl. replace (Z.to_nat k) with (S (Z.to_nat (k - 1))) by lia. cbn [firstn rev]. now rewrite <- app_assoc.
-        -- replace (Z.of_nat (length r) <=? k - 1) with false in Hrun by lia. destruct Hrun as (R1 & R2).
-           replace (Z.to_nat k) with (S (Z.to_nat (k - 1))) by lia. cbn [firstn].
-           split; [split; auto; rewrite R2, Hm; reflexivity|].
-           rewrite Hlog, Hl. cbn [rev]. now rewrite <- app_assoc.
 Qed.
 
 (* ------------------------------------------------------------ attribute block codec *)
@@ -240,56 +147,13 @@ Proof.
   pose proof (nth_byte_ok d 13 Hb). lia.
 Qed.
 
-(* ------------------------------------------------------------ the reader on a passive tag *)
-Lemma read_attr_pt t : p_budget t <> 0 -> 1 <= p_maxr t -> 16 <= len (p_mem t) ->
-  read_attr ptag p_read t = (Ok (attr_parse (take 16 (p_mem t))), t).
-Proof.
-  intros. unfold read_attr. change [0] with (zrange 0 1).
-  rewrite p_read_range by lia. change (16 * 0) with 0. change (16 * 1) with 16. now rewrite slice_0.
-Qed.
-
-Lemma rd_loop_pt t last nbr : p_budget t <> 0 -> 1 <= nbr <= p_maxr t -> nbr <= 80 -> last <= 65536 ->
-  16 * last <= len (p_mem t) ->
-  forall fuel i acc, 1 <= i -> (Z.to_nat (last - i) <= fuel)%nat ->
-    rd_loop ptag p_read fuel t i last nbr acc =
-    (Ok (Some (acc ++ slice (p_mem t) (16 * i) (16 * Z.max i last))), t).
-Proof.
-  intros Hb Hn H80 H64 Hm. induction fuel as [|f IH]; intros i acc Hi Hf.
-  - cbn [rd_loop]. replace (i <? last) with false by lia. rewrite Z.max_l by lia. now rewrite slice_nil_eq, app_nil_r.
-  - cbn [rd_loop]. destruct (i <? last) eqn:E.
-    + rewrite p_read_range by lia. rewrite IH by lia. rewrite <- app_assoc. do 4 f_equal.
-      rewrite (Z.max_r i last) by lia.
-      destruct (Z.le_gt_cases last (i + nbr)).
-      * rewrite Z.min_r, Z.max_l by lia. now rewrite slice_nil_eq, app_nil_r.
-      * rewrite Z.min_l, Z.max_r by lia. apply slice_app_adj; lia.
-    + rewrite Z.max_l by lia. now rewrite slice_nil_eq, app_nil_r.
-Qed.
-
-Lemma read_ndef_pt t a : p_budget t <> 0 -> attr_parse (take 16 (p_mem t)) = Some a ->
-  a_ver a / 16 = 1 -> 1 <= a_nbr a <= p_maxr t -> a_nbr a <= 80 -> 0 <= a_ln a ->
-  let last := 1 + (a_ln a + 15) / 16 in
-  last <= 65536 -> 16 * last <= len (p_mem t) ->
-  pt_read_ndef t = (Ok (Ndef (attr_readable a) (attr_writeable a) (a_nmaxb a * 16)
-                             (take (a_ln a) (slice (p_mem t) 16 (16 * last)))), t).
-Proof.
-  intros Hb Ha Hv Hn H80 Hl last H64 Hm. unfold pt_read_ndef, read_ndef.
-  rewrite read_attr_pt by lia. rewrite Ha.
-  replace (negb (a_ver a / 16 =? 1)) with false by lia.
-  replace (a_nbr a =? 0) with false by lia. fold last.
-  rewrite (rd_loop_pt t last (a_nbr a)) by lia.
-  cbn [app]. rewrite Z.max_r by lia. reflexivity.
-Qed.
-
 (* ------------------------------------------------------------ the write plan *)
 Lemma pad16_len d : len (pad16 d) = 16 * ((len d + 15) / 16).
 Proof. unfold pad16. rewrite len_app. unfold len at 2. rewrite repeat_length. pose proof (len_nonneg d). lia. Qed.
 Lemma pad16_take d : take (len d) (pad16 d) = d.
 Proof. apply take_app_len. Qed.
 
-Lemma In_firstn {A} (x : A) n : forall l, In x (firstn n l) -> In x l.
-Proof. induction n as [|n IH]; intros l H; [contradiction|]. destruct l; [contradiction|]. cbn in H. destruct H; [left|right]; auto. Qed.
-Lemma Forall_firstn {A} (P : A -> Prop) (l : list A) n : Forall P l -> Forall P (firstn n l).
-Proof. intro H. apply Forall_forall. intros x Hx. rewrite Forall_forall in H. apply H. eapply In_firstn; exact Hx. Qed.
+
 
 Lemma batches_nil fuel i nbw : batches fuel i nbw [] = [].
 Proof. destruct fuel; reflexivity. Qed.
@@ -298,51 +162,6 @@ Lemma apply_cmds_cons m c cs : apply_cmds m (c :: cs) = apply_cmds (apply_cmd m 
 Proof. reflexivity. Qed.
 Lemma apply_cmds_app m cs1 cs2 : apply_cmds m (cs1 ++ cs2) = apply_cmds (apply_cmds m cs1) cs2.
 Proof. apply fold_left_app. Qed.
-
-Lemma batches_spec (t : ptag) nbw H : 1 <= nbw <= p_maxw t -> H <= 65536 -> 16 * H <= len (p_mem t) ->
-  (nbw <= 12 \/ (nbw <= 13 /\ H <= 256)) ->
-  forall fuel data i q, (length data <= fuel)%nat -> len data = 16 * q -> 1 <= i -> i + q = H ->
-    Forall (cmd_ok t) (batches fuel i nbw data) /\
-    Forall (fun c => Forall (fun b => 1 <= b < H) (fst c)) (batches fuel i nbw data) /\
-    (forall m, len m = len (p_mem t) -> apply_cmds m (batches fuel i nbw data) = splice m (16 * i) data).
-Proof.
-  intros Hn H64 Hm Hfr. induction fuel as [|f IH]; intros data i q Hf Hd Hi HH.
-  - destruct data; [|cbn in Hf; lia]. cbn. repeat split; auto. intros. now rewrite splice_nil.
-  - destruct data as [|x data']; [cbn; repeat split; auto; intros; now rewrite splice_nil|].
-    set (data := x :: data') in *. assert (Hq : 1 <= q) by (subst data; rewrite len_cons in Hd; pose proof (len_nonneg data'); lia).
-    assert (Hunf : batches (S f) i nbw data =
-                   (zrange i (i + len (take (16 * nbw) data) / 16), take (16 * nbw) data) :: batches f (i + nbw) nbw (drop (16 * nbw) data))
-      by reflexivity.
-    rewrite Hunf. clear Hunf.
-    destruct (Z.le_gt_cases q nbw) as [Hle|Hgt].
-    + (* last batch *)
-      rewrite take_all, drop_all by lia. rewrite batches_nil. rewrite Hd. replace (16 * q / 16) with q by lia.
-      assert (Hc : cmd_ok t (zrange i (i + q), data)).
-      { unfold cmd_ok. rewrite zrange_len' by lia. repeat split; try lia.
-        - apply wr_frame_ok; [reflexivity | apply Forall_zrange; lia | rewrite zrange_len'; lia |].
-          rewrite zrange_len' by lia. destruct Hfr as [?|[? ?]]; [left; lia | right; split; [lia | apply Forall_zrange; lia]].
-        - apply Forall_zrange; lia. }
-      repeat split; [constructor; [exact Hc | constructor] | constructor; [apply Forall_zrange; cbn; lia | constructor] |].
-      intros m Hlm. rewrite apply_cmds_cons. unfold apply_cmd. cbn [fst snd apply_cmds fold_left].
-      apply blks_put_zrange; lia.
-    + (* a full batch, more to come *)
-      assert (Ht : len (take (16 * nbw) data) = 16 * nbw) by (apply len_take; lia).
-      rewrite Ht. replace (16 * nbw / 16) with nbw by lia.
-      assert (Hr : len (drop (16 * nbw) data) = 16 * (q - nbw)) by (rewrite len_drop; lia).
-      destruct (IH (drop (16 * nbw) data) (i + nbw) (q - nbw)) as (I1 & I2 & I3); try lia.
-      { unfold drop. rewrite skipn_length. subst data. cbn [length] in *. lia. }
-      assert (Hc : cmd_ok t (zrange i (i + nbw), take (16 * nbw) data)).
-      { unfold cmd_ok. rewrite zrange_len' by lia. repeat split; try lia.
-        - apply wr_frame_ok; [reflexivity | apply Forall_zrange; lia | rewrite zrange_len'; lia |].
-          rewrite zrange_len' by lia. destruct Hfr as [?|[? ?]]; [left; lia | right; split; [lia | apply Forall_zrange; lia]].
-        - apply Forall_zrange; lia. }
-      repeat split; [constructor; assumption | constructor; [apply Forall_zrange; cbn; lia | assumption] |].
-      intros m Hlm. rewrite apply_cmds_cons. unfold apply_cmd. cbn [fst snd].
-      rewrite blks_put_zrange by lia.
-      rewrite I3 by (rewrite len_splice; lia).
-      replace (16 * (i + nbw)) with (16 * i + len (take (16 * nbw) data)) by lia.
-      rewrite splice_adj by lia. now rewrite take_drop.
-Qed.
 
 (* ------------------------------------------------------------ shape of command lists *)
 Definition cmd_shape (L lo hi : Z) (c : list Z * list Z) : Prop :=
@@ -362,88 +181,238 @@ Proof.
   - apply blks_put_hi; [|exact Hd]. eapply Forall_impl; [|exact Hb]. cbn. intros; lia.
 Qed.
 
-Lemma cmd_ok_shape t c lo hi : cmd_ok t c -> Forall (fun b => lo <= b < hi) (fst c) -> cmd_shape (len (p_mem t)) lo hi c.
-Proof. destruct c as [bl d]. intros (_ & _ & Hb & Hd) Hr. split; [|exact Hd]. cbn [fst] in *.
+
+(* ------------------------------------------------------------ commands a Type 3 device must accept *)
+(* independent of the memory contents: L = memory size, MW = blocks per write command *)
+Definition cmd_ok (L MW : Z) (c : list Z * list Z) : Prop :=
+  (forall idm, len idm = 8 -> exists f, wr_frame idm (fst c) (snd c) = Ok f) /\ 1 <= len (fst c) <= MW /\
+  Forall (fun b => 0 <= b < 65536 /\ 16 * (b + 1) <= L) (fst c) /\ len (snd c) = 16 * len (fst c).
+Definition rd_ok (L MR : Z) (bl : list Z) : Prop :=
+  1 <= len bl <= MR /\ len bl <= 80 /\ Forall (fun b => 0 <= b < 65536 /\ 16 * (b + 1) <= L) bl.
+
+Lemma apply_cmd_len L MW m c : cmd_ok L MW c -> len m = L -> len (apply_cmd m c) = len m.
+Proof. intros (_ & _ & Hb & Hd) HL. unfold apply_cmd. apply blks_put_len; [|exact Hd].
+  eapply Forall_impl; [|exact Hb]. cbn. intros; lia. Qed.
+Lemma cmd_ok_shape L MW c lo hi : cmd_ok L MW c -> Forall (fun b => lo <= b < hi) (fst c) -> cmd_shape L lo hi c.
+Proof. intros (_ & _ & Hb & Hd) Hr. split; [|exact Hd].
   rewrite Forall_forall in *. intros x Hx. specialize (Hb x Hx). specialize (Hr x Hx). lia. Qed.
-
-Lemma splice0 {A} (x d : list A) : splice x 0 d = d ++ drop (len d) x.
-Proof. reflexivity. Qed.
-
-(* ------------------------------------------------------------ well-formed tag *)
-Record t3_wf (t : ptag) (a : attrs) : Prop := mk_wf {
-  wf_attr : attr_parse (take 16 (p_mem t)) = Some a;       (* block 0 is a valid attribute block *)
-  wf_aok : attrs_ok a;                                     (* (follows from the memory being bytes) *)
-  wf_ver : a_ver a / 16 = 1;                               (* mapping version 1.x *)
-  wf_nbr : 1 <= a_nbr a <= p_maxr t;                       (* the tag serves the Nbr blocks per read it declares *)
-  wf_nbr80 : a_nbr a <= 80;                                (* a read command frame holds at most 80 block list elements *)
-  wf_nbw : 1 <= a_nbw a;
-  wf_maxw : Z.min (a_nbw a) 13 <= p_maxw t;                (* ... and min(Nbw, 13) blocks per write *)
-  wf_writef : a_writef a = 0;
-  wf_rwflag : a_rwflag a <> 0;
-  wf_blocks : 16 * (a_nmaxb a + 1) <= len (p_mem t);       (* the Nmaxb data blocks exist *)
-  wf_ln : a_ln a <= 16 * a_nmaxb a;
-  wf_rw : p_rw t = true                                    (* write service 0009h present *)
-}.
+Lemma rd_ok_zrange L MR a b : 0 <= a < b -> b - a <= MR -> b - a <= 80 -> b <= 65536 -> 16 * b <= L -> rd_ok L MR (zrange a b).
+Proof. intros. unfold rd_ok. rewrite zrange_len' by lia. repeat split; try lia. apply Forall_zrange. intros; lia. Qed.
 
 Definition nblk (n : Z) : Z := (n + 15) / 16.
 Definition attr_final (a : attrs) (d : list Z) : list Z := attr_build (set_ln (set_writef a 0) (len d)).
 Definition final_mem (a : attrs) (d m : list Z) : list Z :=
   attr_final a d ++ pad16 d ++ drop (16 + len (pad16 d)) m.
 
-Lemma t3_initial_read t a : t3_wf t a -> p_budget t <> 0 ->
-  pt_read_ndef t = (Ok (Ndef true true (a_nmaxb a * 16)
-                      (take (a_ln a) (slice (p_mem t) 16 (16 * (1 + nblk (a_ln a)))))), t).
+(* ============================================================ any device that serves block reads and writes *)
+Section Dev.
+Variable S : Type.
+Variable rd : S -> list Z -> res (list Z) * S.
+Variable wr : S -> list Z -> list Z -> res unit * S.
+Variable mem : S -> list Z.            (* the memory image behind the device *)
+Variable bud : S -> Z.                 (* state-changing commands left before the power cut; < 0 = no cut *)
+Variable inv : S -> Prop.              (* configuration of the device, preserved by commands *)
+Variable MR MW : Z.                    (* blocks per read / write command the device serves *)
+Variable fresh_of : list Z -> S.       (* a new activation on a memory image *)
+
+Hypothesis H_rd : forall s bl, inv s -> bud s <> 0 -> rd_ok (len (mem s)) MR bl ->
+  rd s bl = (Ok (flat_map (blk_get (mem s)) bl), s).
+Hypothesis H_rd_dead : forall s, inv s -> bud s = 0 -> rd s [0] = (Err (TagCommandError 0), s).
+Hypothesis H_wr : forall s c, inv s -> bud s <> 0 -> cmd_ok (len (mem s)) MW c ->
+  exists s', wr s (fst c) (snd c) = (Ok tt, s') /\ inv s' /\ mem s' = apply_cmd (mem s) c /\
+             bud s' = (if bud s <? 0 then bud s else bud s - 1).
+Hypothesis H_wr_dead : forall s c, inv s -> bud s = 0 -> cmd_ok (len (mem s)) MW c ->
+  wr s (fst c) (snd c) = (Err (TagCommandError 0), s).
+Hypothesis H_fresh : forall m, inv (fresh_of m) /\ mem (fresh_of m) = m /\ bud (fresh_of m) = -1.
+
+Definition dev_fresh (m : list Z) : res fresh := fst (read_ndef S rd (fresh_of m)).
+
+Lemma rd_range s a b : inv s -> bud s <> 0 -> 0 <= a < b -> b - a <= MR -> b - a <= 80 -> b <= 65536 ->
+  16 * b <= len (mem s) -> rd s (zrange a b) = (Ok (slice (mem s) (16 * a) (16 * b)), s).
+Proof. intros. rewrite H_rd by (auto; apply rd_ok_zrange; lia). now rewrite flat_blk_get_range by lia. Qed.
+
+(* running a command list with a power-cut budget *)
+Lemma run_cmds_budget : forall cs s, inv s -> Forall (cmd_ok (len (mem s)) MW) cs ->
+  let k := bud s in
+  let n := Z.of_nat (length cs) in
+  exists s', inv s' /\
+    (if (k <? 0) || (n <=? k)
+     then run_cmds S wr s cs = (Ok tt, s') /\ mem s' = apply_cmds (mem s) cs /\ bud s' = (if k <? 0 then k else k - n)
+     else run_cmds S wr s cs = (Err (TagCommandError 0), s') /\ mem s' = apply_cmds (mem s) (firstn (Z.to_nat k) cs)).
+Proof.
+  induction cs as [|c r IH]; intros s Hi Hok k n.
+  - exists s. split; [exact Hi|]. subst n. cbn [length Z.of_nat].
+    replace ((k <? 0) || (0 <=? k)) with true by lia. cbn. repeat split; auto. destruct (k <? 0); lia.
+  - inversion Hok as [|? ? Hc Hr]; subst. destruct c as [bl d].
+    destruct (Z.eq_dec k 0) as [Hk0|Hk0].
+    + exists s. split; [exact Hi|]. subst n k. cbn [length].
+      replace ((bud s <? 0) || (Z.of_nat (Datatypes.S (length r)) <=? bud s)) with false by lia.
+      rewrite Hk0. cbn [Z.to_nat firstn]. cbn [run_cmds].
+      pose proof (H_wr_dead s (bl, d) Hi Hk0 Hc) as Hd. cbn [fst snd] in Hd. rewrite Hd. split; reflexivity.
+    + destruct (H_wr s (bl, d) Hi Hk0 Hc) as (s1 & Hw & Hi1 & Hm & Hb). cbn [fst snd] in Hw.
+      assert (Hlen : len (mem s1) = len (mem s)) by (rewrite Hm; eapply apply_cmd_len; eauto).
+      assert (Hok1 : Forall (cmd_ok (len (mem s1)) MW) r) by (rewrite Hlen; exact Hr).
+      destruct (IH s1 Hi1 Hok1) as (s' & Hi' & Hrun).
+      exists s'. split; [exact Hi'|]. cbn [run_cmds]. rewrite Hw.
+      subst n. cbn [length]. rewrite Nat2Z.inj_succ. fold k in Hb. cbv zeta in Hrun. rewrite Hb, Hm in Hrun.
+      destruct (k <? 0) eqn:Ek.
+      * rewrite ?Ek in Hrun. cbn [orb] in *. destruct Hrun as (R1 & R2 & R3). rewrite ?Ek in R3. repeat split; auto.
+      * replace (k - 1 <? 0) with false in * by lia. cbn [orb] in *.
+        destruct (Z.succ (Z.of_nat (length r)) <=? k) eqn:En.
+        -- replace (Z.of_nat (length r) <=? k - 1) with true in Hrun by lia. destruct Hrun as (R1 & R2 & R3).
+           repeat split; auto. lia.
+        -- replace (Z.of_nat (length r) <=? k - 1) with false in Hrun by lia. destruct Hrun as (R1 & R2).
+           replace (Z.to_nat k) with (Datatypes.S (Z.to_nat (k - 1))) by lia. cbn [firstn]. split; auto.
+Qed.
+
+(* ------------------------------------------------------------ the reader *)
+Lemma read_attr_dev s : inv s -> bud s <> 0 -> 1 <= MR -> 16 <= len (mem s) ->
+  read_attr S rd s = (Ok (attr_parse (take 16 (mem s))), s).
+Proof.
+  intros. unfold read_attr. change [0] with (zrange 0 1).
+  rewrite rd_range by (auto; lia). change (16 * 0) with 0. change (16 * 1) with 16. now rewrite slice_0.
+Qed.
+
+Lemma rd_loop_dev s last nbr : inv s -> bud s <> 0 -> 1 <= nbr <= MR -> nbr <= 80 -> last <= 65536 ->
+  16 * last <= len (mem s) ->
+  forall fuel i acc, 1 <= i -> (Z.to_nat (last - i) <= fuel)%nat ->
+    rd_loop S rd fuel s i last nbr acc = (Ok (Some (acc ++ slice (mem s) (16 * i) (16 * Z.max i last))), s).
+Proof.
+  intros Hi0 Hb Hn H80 H64 Hm. induction fuel as [|f IH]; intros i acc Hi Hf.
+  - cbn [rd_loop]. replace (i <? last) with false by lia. rewrite Z.max_l by lia. now rewrite slice_nil_eq, app_nil_r.
+  - cbn [rd_loop]. destruct (i <? last) eqn:E.
+    + rewrite rd_range by (auto; lia). rewrite IH by lia. rewrite <- app_assoc. do 4 f_equal.
+      rewrite (Z.max_r i last) by lia.
+      destruct (Z.le_gt_cases last (i + nbr)).
+      * rewrite Z.min_r, Z.max_l by lia. now rewrite slice_nil_eq, app_nil_r.
+      * rewrite Z.min_l, Z.max_r by lia. apply slice_app_adj; lia.
+    + rewrite Z.max_l by lia. now rewrite slice_nil_eq, app_nil_r.
+Qed.
+
+Lemma read_ndef_dev s a : inv s -> bud s <> 0 -> attr_parse (take 16 (mem s)) = Some a ->
+  a_ver a / 16 = 1 -> 1 <= a_nbr a <= MR -> a_nbr a <= 80 -> 0 <= a_ln a ->
+  let last := 1 + (a_ln a + 15) / 16 in
+  last <= 65536 -> 16 * last <= len (mem s) ->
+  read_ndef S rd s = (Ok (Ndef (attr_readable a) (attr_writeable a) (a_nmaxb a * 16)
+                            (take (a_ln a) (slice (mem s) 16 (16 * last)))), s).
+Proof.
+  intros Hi Hb Ha Hv Hn H80 Hl last H64 Hm. unfold read_ndef.
+  rewrite read_attr_dev by (auto; lia). rewrite Ha.
+  replace (negb (a_ver a / 16 =? 1)) with false by lia.
+  replace (a_nbr a =? 0) with false by lia. fold last.
+  rewrite (rd_loop_dev s last (a_nbr a)) by (auto; lia).
+  cbn [app]. rewrite Z.max_r by lia. reflexivity.
+Qed.
+
+(* ------------------------------------------------------------ the data batches *)
+Lemma batches_spec L nbw H : 1 <= nbw <= MW -> H <= 65536 -> 16 * H <= L ->
+  (nbw <= 12 \/ (nbw <= 13 /\ H <= 256)) ->
+  forall fuel data i q, (length data <= fuel)%nat -> len data = 16 * q -> 1 <= i -> i + q = H ->
+    Forall (cmd_ok L MW) (batches fuel i nbw data) /\
+    Forall (fun c => Forall (fun b => 1 <= b < H) (fst c)) (batches fuel i nbw data) /\
+    (forall m, len m = L -> apply_cmds m (batches fuel i nbw data) = splice m (16 * i) data).
+Proof.
+  intros Hn H64 Hm Hfr. induction fuel as [|f IH]; intros data i q Hf Hd Hi HH.
+  - destruct data; [|cbn in Hf; lia]. cbn. repeat split; auto. intros. now rewrite splice_nil.
+  - destruct data as [|x data']; [cbn; repeat split; auto; intros; now rewrite splice_nil|].
+    set (data := x :: data') in *. assert (Hq : 1 <= q) by (subst data; rewrite len_cons in Hd; pose proof (len_nonneg data'); lia).
+    assert (Hunf : batches (Datatypes.S f) i nbw data =
+                   (zrange i (i + len (take (16 * nbw) data) / 16), take (16 * nbw) data) :: batches f (i + nbw) nbw (drop (16 * nbw) data))
+      by reflexivity.
+    rewrite Hunf. clear Hunf.
+    assert (Hcmd : forall n c, 1 <= n <= nbw -> i + n <= H -> len c = 16 * n -> cmd_ok L MW (zrange i (i + n), c)).
+    { intros n c Hn1 Hn2 Hc. unfold cmd_ok. cbn [fst snd]. rewrite zrange_len' by lia. repeat split; try lia.
+      - intros idm Hidm. apply wr_frame_ok; [exact Hidm | apply Forall_zrange; lia | rewrite zrange_len'; lia |].
+        rewrite zrange_len' by lia. destruct Hfr as [?|[? ?]]; [left; lia | right; split; [lia | apply Forall_zrange; lia]].
+      - apply Forall_zrange; lia. }
+    destruct (Z.le_gt_cases q nbw) as [Hle|Hgt].
+    + (* last batch *)
+      rewrite take_all, drop_all by lia. rewrite batches_nil. rewrite Hd. replace (16 * q / 16) with q by lia.
+      repeat split; [constructor; [apply Hcmd; lia | constructor] | constructor; [apply Forall_zrange; cbn; lia | constructor] |].
+      intros m Hlm. rewrite apply_cmds_cons. unfold apply_cmd. cbn [fst snd apply_cmds fold_left].
+      apply blks_put_zrange; lia.
+    + (* a full batch, more to come *)
+      assert (Ht : len (take (16 * nbw) data) = 16 * nbw) by (apply len_take; lia).
+      rewrite Ht. replace (16 * nbw / 16) with nbw by lia.
+      assert (Hr : len (drop (16 * nbw) data) = 16 * (q - nbw)) by (rewrite len_drop; lia).
+      destruct (IH (drop (16 * nbw) data) (i + nbw) (q - nbw)) as (I1 & I2 & I3); try lia.
+      { unfold drop. rewrite skipn_length. subst data. cbn [length] in *. lia. }
+      repeat split; [constructor; [apply Hcmd; lia | assumption] | constructor; [apply Forall_zrange; cbn; lia | assumption] |].
+      intros m Hlm. rewrite apply_cmds_cons. unfold apply_cmd. cbn [fst snd].
+      rewrite blks_put_zrange by lia.
+      rewrite I3 by (rewrite len_splice; lia).
+      replace (16 * (i + nbw)) with (16 * i + len (take (16 * nbw) data)) by lia.
+      rewrite splice_adj by lia. now rewrite take_drop.
+Qed.
+
+(* ------------------------------------------------------------ well-formed tag *)
+Record t3_wf (s : S) (a : attrs) : Prop := mk_wf {
+  wf_inv : inv s;
+  wf_attr : attr_parse (take 16 (mem s)) = Some a;         (* block 0 is a valid attribute block *)
+  wf_aok : attrs_ok a;                                     (* (follows from the memory being bytes) *)
+  wf_ver : a_ver a / 16 = 1;                               (* mapping version 1.x *)
+  wf_nbr : 1 <= a_nbr a <= MR;                             (* the device serves the Nbr blocks per read it declares *)
+  wf_nbr80 : a_nbr a <= 80;                                (* a read command frame holds at most 80 block list elements *)
+  wf_nbw : 1 <= a_nbw a;
+  wf_maxw : Z.min (a_nbw a) 13 <= MW;                      (* ... and min(Nbw, 13) blocks per write *)
+  wf_writef : a_writef a = 0;
+  wf_rwflag : a_rwflag a <> 0;
+  wf_blocks : 16 * (a_nmaxb a + 1) <= len (mem s);         (* the Nmaxb data blocks exist *)
+  wf_ln : a_ln a <= 16 * a_nmaxb a
+}.
+
+Lemma wf_basic s a : t3_wf s a -> 1 <= MR /\ 16 <= len (mem s) /\ 0 <= a_nmaxb a < 65536 /\ 0 <= a_ln a.
+Proof. intro W. destruct W. destruct wf_aok0 as (? & ? & ? & ? & ? & ? & ?). lia. Qed.
+
+Lemma t3_initial_read s a : t3_wf s a -> bud s <> 0 ->
+  read_ndef S rd s = (Ok (Ndef true true (a_nmaxb a * 16)
+                        (take (a_ln a) (slice (mem s) 16 (16 * (1 + nblk (a_ln a)))))), s).
 Proof.
   intros W Hb. destruct W. destruct wf_aok0 as (? & ? & ? & ? & ? & ? & ?).
-  rewrite (read_ndef_pt t a) by (auto; unfold nblk in *; lia).
+  rewrite (read_ndef_dev s a) by (auto; unfold nblk in *; lia).
   unfold attr_readable, attr_writeable, nblk.
   replace ((a_writef a =? 0) && (0 <? a_nbr a)) with true by lia.
   replace (negb (a_rwflag a =? 0) && (0 <? a_nbw a)) with true by lia. reflexivity.
 Qed.
 
-Lemma plan_head_ok t a : t3_wf t a -> cmd_ok t (plan_head a).
+Lemma attr_cmd_ok s a A : t3_wf s a -> len A = 16 -> cmd_ok (len (mem s)) MW ([0], A).
 Proof.
-  intro W. destruct W. destruct wf_aok0 as (? & ? & ? & ? & ? & ? & ?). unfold plan_head, cmd_ok. repeat split.
-  - apply wr_frame_ok; [reflexivity | constructor; [lia | constructor] | reflexivity | left; cbn; lia].
+  intros W HA. destruct (wf_basic s a W) as (B1 & B2 & B3 & B4). pose proof (wf_maxw s a W). pose proof (wf_nbw s a W).
+  unfold cmd_ok. cbn [fst snd]. repeat split.
+  - intros idm Hidm. apply wr_frame_ok; [exact Hidm | constructor; [lia | constructor] | exact HA | left; cbn; lia].
   - cbn; lia.
   - cbn. lia.
   - constructor; [lia | constructor].
-Qed.
-Lemma plan_tail_ok t a d : t3_wf t a -> cmd_ok t (plan_tail a d).
-Proof.
-  intro W. destruct W. destruct wf_aok0 as (? & ? & ? & ? & ? & ? & ?). unfold plan_tail, cmd_ok. repeat split.
-  - apply wr_frame_ok; [reflexivity | constructor; [lia | constructor] | reflexivity | left; cbn; lia].
-  - cbn; lia.
-  - cbn. lia.
-  - constructor; [lia | constructor].
+  - exact HA.
 Qed.
 
-Lemma wr_batch_bounds t a n : t3_wf t a -> 0 <= n ->
-  1 <= wr_batch a n <= p_maxw t /\ (wr_batch a n <= 12 \/ (wr_batch a n <= 13 /\ 1 + nblk n <= 256)).
+Lemma wr_batch_bounds s a n : t3_wf s a -> 0 <= n ->
+  1 <= wr_batch a n <= MW /\ (wr_batch a n <= 12 \/ (wr_batch a n <= 13 /\ 1 + nblk n <= 256)).
 Proof. intros W Hn. destruct W. unfold wr_batch, nblk. destruct (1 + (n + 15) / 16 <=? 256) eqn:E; lia. Qed.
 
-Lemma plan_data_ok t a d : t3_wf t a -> len d <= 16 * a_nmaxb a ->
-  Forall (cmd_ok t) (plan_data a d) /\
+Lemma plan_data_ok s a d : t3_wf s a -> len d <= 16 * a_nmaxb a ->
+  Forall (cmd_ok (len (mem s)) MW) (plan_data a d) /\
   Forall (fun c => Forall (fun b => 1 <= b < 1 + nblk (len d)) (fst c)) (plan_data a d) /\
-  (forall m, len m = len (p_mem t) -> apply_cmds m (plan_data a d) = splice m 16 (pad16 d)).
+  (forall m, len m = len (mem s) -> apply_cmds m (plan_data a d) = splice m 16 (pad16 d)).
 Proof.
-  intros W Hd. pose proof (len_nonneg d) as H0. destruct (wr_batch_bounds t a (len d) W H0) as (Hb & Hfr).
-  destruct W. destruct wf_aok0 as (? & ? & ? & ? & ? & ? & ?).
+  intros W Hd. pose proof (len_nonneg d) as H0. destruct (wr_batch_bounds s a (len d) W H0) as (Hb & Hfr).
+  destruct (wf_basic s a W) as (B1 & B2 & B3 & B4). pose proof (wf_blocks s a W).
   unfold plan_data.
   assert (Hq : nblk (len d) <= a_nmaxb a) by (unfold nblk; lia).
-  apply (batches_spec t (wr_batch a (len d)) (1 + nblk (len d))) with (q := nblk (len d)); try lia.
+  apply (batches_spec (len (mem s)) (wr_batch a (len d)) (1 + nblk (len d))) with (q := nblk (len d)); try lia.
   rewrite pad16_len. reflexivity.
 Qed.
 
-Lemma t3_plan_ok t a d : t3_wf t a -> len d <= 16 * a_nmaxb a ->
-  cmds_ok t (t3_plan a d) /\
+Lemma t3_plan_ok s a d : t3_wf s a -> len d <= 16 * a_nmaxb a ->
+  Forall (cmd_ok (len (mem s)) MW) (t3_plan a d) /\
   Forall (fun c => Forall (fun b => 0 <= b < 1 + nblk (len d)) (fst c)) (t3_plan a d) /\
-  apply_cmds (p_mem t) (t3_plan a d) = final_mem a d (p_mem t).
+  apply_cmds (mem s) (t3_plan a d) = final_mem a d (mem s).
 Proof.
-  intros W Hd. destruct (plan_data_ok t a d W Hd) as (D1 & D2 & D3).
-  pose proof (plan_head_ok t a W) as Hh. pose proof (plan_tail_ok t a d W) as Ht.
+  intros W Hd. destruct (plan_data_ok s a d W Hd) as (D1 & D2 & D3).
+  pose proof (attr_cmd_ok s a (attr_build (set_writef a 15)) W (attr_build_len _)) as Hh.
+  pose proof (attr_cmd_ok s a (attr_build (set_ln (set_writef a 0) (len d))) W (attr_build_len _)) as Ht.
   pose proof (len_nonneg d) as H0. assert (Hq : 0 <= nblk (len d) <= a_nmaxb a) by (unfold nblk; lia).
-  pose proof (wf_blocks t a W) as Hbl.
+  pose proof (wf_blocks s a W) as Hbl. destruct (wf_basic s a W) as (B1 & B2 & B3 & B4).
   unfold t3_plan. repeat split.
   - constructor; [exact Hh|]. apply Forall_app. split; [exact D1 | constructor; [exact Ht | constructor]].
   - constructor; [unfold plan_head; cbn [fst]; constructor; [lia | constructor]|]. apply Forall_app. split.
@@ -455,11 +424,11 @@ Proof.
       rewrite blks_put_zrange by lia. reflexivity. }
     rewrite apply_cmds_cons, apply_cmds_app.
     change (apply_cmds ?x [plan_tail a d]) with (apply_cmd x (plan_tail a d)).
-    unfold plan_head, plan_tail. rewrite (E1 (p_mem t)) by (rewrite ?attr_build_len; lia).
-    assert (L1 : len (splice (p_mem t) 0 (attr_build (set_writef a 15))) = len (p_mem t))
+    unfold plan_head, plan_tail. rewrite (E1 (mem s)) by (rewrite ?attr_build_len; lia).
+    assert (L1 : len (splice (mem s) 0 (attr_build (set_writef a 15))) = len (mem s))
       by (apply len_splice; rewrite ?attr_build_len; lia).
     rewrite D3 by exact L1.
-    assert (L2 : len (splice (splice (p_mem t) 0 (attr_build (set_writef a 15))) 16 (pad16 d)) = len (p_mem t))
+    assert (L2 : len (splice (splice (mem s) 0 (attr_build (set_writef a 15))) 16 (pad16 d)) = len (mem s))
       by (rewrite len_splice; lia).
     rewrite E1; [| apply attr_build_len | lia].
     replace 16 with (0 + len (attr_build (set_writef a 15))) at 1 by (rewrite attr_build_len; lia).
@@ -471,51 +440,49 @@ Proof.
 Qed.
 
 (* ------------------------------------------------------------ running _write_ndef_data *)
-Lemma wf_basic t a : t3_wf t a -> 1 <= p_maxr t /\ 16 <= len (p_mem t) /\ 0 <= a_nmaxb a < 65536 /\ 0 <= a_ln a.
-Proof. intro W. destruct W. destruct wf_aok0 as (? & ? & ? & ? & ? & ? & ?). lia. Qed.
-
-Lemma pt_write_ndef_run t a d : t3_wf t a -> len d <= 16 * a_nmaxb a -> p_budget t <> 0 ->
-  exists t' r, pt_write_ndef t d = (r, t') /\ same_tag t t' /\
-    (if (p_budget t <? 0) || (Z.of_nat (length (t3_plan a d)) <=? p_budget t)
-     then r = Ok tt /\ p_mem t' = final_mem a d (p_mem t)
-     else r = Err (TagCommandError 0) /\
-          p_mem t' = apply_cmds (p_mem t) (firstn (Z.to_nat (p_budget t)) (t3_plan a d))) /\
-    p_log t' = rev (firstn (if p_budget t <? 0 then length (t3_plan a d) else Z.to_nat (p_budget t)) (t3_plan a d)) ++ p_log t.
+Lemma write_ndef_run s a d : t3_wf s a -> len d <= 16 * a_nmaxb a -> bud s <> 0 ->
+  exists s' r, write_ndef S rd wr s d = (r, s') /\ inv s' /\
+    (if (bud s <? 0) || (Z.of_nat (length (t3_plan a d)) <=? bud s)
+     then r = Ok tt /\ mem s' = final_mem a d (mem s)
+     else r = Err (TagCommandError 0) /\ mem s' = apply_cmds (mem s) (firstn (Z.to_nat (bud s)) (t3_plan a d))).
 Proof.
-  intros W Hd Hb. destruct (wf_basic t a W) as (B1 & B2 & B3 & B4).
-  destruct (t3_plan_ok t a d W Hd) as (P1 & P2 & P3).
-  pose proof (len_nonneg d) as H0. destruct (wr_batch_bounds t a (len d) W H0) as (Hwb & _).
-  unfold pt_write_ndef, write_ndef. rewrite read_attr_pt by lia. rewrite (wf_attr t a W).
+  intros W Hd Hb. destruct (wf_basic s a W) as (B1 & B2 & B3 & B4).
+  destruct (t3_plan_ok s a d W Hd) as (P1 & P2 & P3).
+  pose proof (len_nonneg d) as H0. destruct (wr_batch_bounds s a (len d) W H0) as (Hwb & _).
+  unfold write_ndef. rewrite read_attr_dev by (try apply (wf_inv s a W); lia). rewrite (wf_attr s a W).
   replace (wr_batch a (len d) =? 0) with false by lia.
-  destruct (run_cmds_budget (t3_plan a d) t P1 (wf_rw t a W)) as (t' & Hs & Hrun & Hlog).
-  cbv zeta in Hrun. destruct ((p_budget t <? 0) || (Z.of_nat (length (t3_plan a d)) <=? p_budget t)) eqn:E.
-  - destruct Hrun as (R1 & R2 & R3). exists t', (Ok tt). rewrite R1, R2, P3. repeat split; auto; apply Hs.
-  - destruct Hrun as (R1 & R2). exists t', (Err (TagCommandError 0)). rewrite R1, R2. repeat split; auto; apply Hs.
+  destruct (run_cmds_budget (t3_plan a d) s (wf_inv s a W) P1) as (s' & Hi' & Hrun).
+  cbv zeta in Hrun. destruct ((bud s <? 0) || (Z.of_nat (length (t3_plan a d)) <=? bud s)) eqn:E.
+  - destruct Hrun as (R1 & R2 & R3). exists s', (Ok tt). rewrite R1, R2, P3. auto.
+  - destruct Hrun as (R1 & R2). exists s', (Err (TagCommandError 0)). rewrite R1, R2. auto.
 Qed.
 
+Lemma write_ndef_dead s a d : t3_wf s a -> bud s = 0 -> write_ndef S rd wr s d = (Crash TypeErr, s).
+Proof. intros W Hb. unfold write_ndef, read_attr. now rewrite H_rd_dead by (try apply (wf_inv s a W); auto). Qed.
+
 (* ------------------------------------------------------------ a fresh reader on the final memory *)
-Lemma final_mem_len t a d : t3_wf t a -> len d <= 16 * a_nmaxb a -> len (final_mem a d (p_mem t)) = len (p_mem t).
+Lemma final_mem_len s a d : t3_wf s a -> len d <= 16 * a_nmaxb a -> len (final_mem a d (mem s)) = len (mem s).
 Proof.
-  intros W Hd. destruct (wf_basic t a W) as (B1 & B2 & B3 & B4). pose proof (wf_blocks t a W). pose proof (len_nonneg d).
+  intros W Hd. destruct (wf_basic s a W) as (B1 & B2 & B3 & B4). pose proof (wf_blocks s a W). pose proof (len_nonneg d).
   unfold final_mem, attr_final. rewrite !len_app, attr_build_len, pad16_len, len_drop; rewrite ?pad16_len; lia.
 Qed.
 
-Lemma fresh_after_write t a d : t3_wf t a -> len d <= 16 * a_nmaxb a ->
-  pt_fresh (final_mem a d (p_mem t)) (p_maxr t) (p_maxw t) (p_rw t) = Ok (Ndef true true (a_nmaxb a * 16) d).
+Lemma fresh_after_write s a d : t3_wf s a -> len d <= 16 * a_nmaxb a ->
+  dev_fresh (final_mem a d (mem s)) = Ok (Ndef true true (a_nmaxb a * 16) d).
 Proof.
-  intros W Hd. destruct (wf_basic t a W) as (B1 & B2 & B3 & B4). pose proof (len_nonneg d) as H0.
-  pose proof (final_mem_len t a d W Hd) as HL. pose proof (pad16_len d) as HP.
+  intros W Hd. destruct (wf_basic s a W) as (B1 & B2 & B3 & B4). pose proof (len_nonneg d) as H0.
+  pose proof (final_mem_len s a d W Hd) as HL. pose proof (pad16_len d) as HP.
   set (a2 := set_ln (set_writef a 0) (len d)).
-  unfold pt_fresh.
-  assert (Ha2 : attr_parse (take 16 (final_mem a d (p_mem t))) = Some a2).
+  unfold dev_fresh. destruct (H_fresh (final_mem a d (mem s))) as (F1 & F2 & F3).
+  assert (Ha2 : attr_parse (take 16 (final_mem a d (mem s))) = Some a2).
   { unfold final_mem, attr_final. fold a2. change 16 with (len (attr_build a2)) at 1. rewrite take_app_len.
-    apply attr_roundtrip. destruct (wf_aok t a W) as (? & ? & ? & ? & ? & ? & ?). unfold a2, attrs_ok. cbn. lia. }
+    apply attr_roundtrip. destruct (wf_aok s a W) as (? & ? & ? & ? & ? & ? & ?). unfold a2, attrs_ok. cbn. lia. }
   destruct W.
-  rewrite (read_ndef_pt _ a2); cbn [p_mem p_budget p_maxr fst]; auto; try (unfold a2; cbn; lia).
+  rewrite (read_ndef_dev _ a2); rewrite ?F2, ?F3; cbn [fst]; auto; try (unfold a2; cbn; lia).
   - change (a_ln a2) with (len d). change (a_nmaxb a2) with (a_nmaxb a).
-    assert (Hs : slice (final_mem a d (p_mem t)) 16 (16 * (1 + (len d + 15) / 16)) = pad16 d).
+    assert (Hs : slice (final_mem a d (mem s)) 16 (16 * (1 + (len d + 15) / 16)) = pad16 d).
     { rewrite slice_take_drop by lia. unfold final_mem, attr_final. fold a2.
-      set (A2 := attr_build a2). set (R := drop (16 + len (pad16 d)) (p_mem t)).
+      set (A2 := attr_build a2). set (R := drop (16 + len (pad16 d)) (mem s)).
       assert (E : drop 16 (A2 ++ pad16 d ++ R) = pad16 d ++ R) by (change 16 with (len A2); apply drop_app_len).
       rewrite E. replace (16 * (1 + (len d + 15) / 16) - 16) with (len (pad16 d)) by lia. apply take_app_len. }
     rewrite Hs, pad16_take. unfold attr_readable, attr_writeable, a2. cbn [a_writef a_nbr a_rwflag a_nbw a_nmaxb set_ln set_writef].
@@ -526,24 +493,207 @@ Proof.
 Qed.
 
 (* ------------------------------------------------------------ C01 *)
-Theorem t3_write_read_pt t a d : t3_wf t a -> p_budget t < 0 -> len d <= a_nmaxb a * 16 ->
+Theorem t3_write_read_dev s a d : t3_wf s a -> bud s < 0 -> len d <= a_nmaxb a * 16 ->
+  exists old s',
+    read_ndef S rd s = (Ok (Ndef true true (a_nmaxb a * 16) old), s) /\
+    set_octets S rd wr (Ndef true true (a_nmaxb a * 16) old) s d = (Ok tt, s') /\
+    dev_fresh (mem s') = Ok (Ndef true true (a_nmaxb a * 16) d).
+Proof.
+  intros W Hb Hd. eexists.
+  destruct (write_ndef_run s a d W) as (s' & r & Hw & Hi & Hm); [lia | lia |].
+  exists s'. split; [apply t3_initial_read; [exact W | lia]|].
+  replace ((bud s <? 0) || _) with true in Hm by lia. destruct Hm as (-> & Hm).
+  split.
+  - unfold set_octets. cbn [negb]. replace (len d >? a_nmaxb a * 16) with false by lia. exact Hw.
+  - rewrite Hm. apply fresh_after_write; [exact W | lia].
+Qed.
+
+Theorem t3_capacity_sound_dev s a : t3_wf s a -> 16 + a_nmaxb a * 16 <= len (mem s).
+Proof. intro W. pose proof (wf_blocks s a W). lia. Qed.
+
+Theorem t3_oversize_rejected_dev s r cap old d : len d > cap ->
+  set_octets S rd wr (Ndef r true cap old) s d = (Err ValueError, s).
+Proof. intro H. unfold set_octets. cbn [negb]. now replace (len d >? cap) with true by lia. Qed.
+
+(* ------------------------------------------------------------ C02: power cut after the k-th command *)
+Lemma plan_length a d : length (t3_plan a d) = Datatypes.S (length (plan_data a d) + 1).
+Proof. unfold t3_plan. cbn [length]. now rewrite app_length. Qed.
+
+Lemma mid_mem s a d j : t3_wf s a -> len d <= 16 * a_nmaxb a -> (1 <= j < length (t3_plan a d))%nat ->
+  let mk := apply_cmds (mem s) (firstn j (t3_plan a d)) in
+  len mk = len (mem s) /\ take 16 mk = attr_build (set_writef a 15).
+Proof.
+  intros W Hd Hj mk. rewrite plan_length in Hj. destruct (wf_basic s a W) as (B1 & B2 & B3 & B4).
+  destruct (plan_data_ok s a d W Hd) as (D1 & D2 & _).
+  subst mk. unfold t3_plan. destruct j as [|j]; [lia|]. cbn [firstn].
+  rewrite firstn_app. replace (j - length (plan_data a d))%nat with 0%nat by lia. cbn [firstn]. rewrite app_nil_r.
+  rewrite apply_cmds_cons.
+  assert (E1 : apply_cmd (mem s) (plan_head a) = splice (mem s) 0 (attr_build (set_writef a 15))).
+  { unfold apply_cmd, plan_head. cbn [fst snd]. change [0] with (zrange 0 1). rewrite blks_put_zrange by (rewrite ?attr_build_len; lia). reflexivity. }
+  rewrite E1.
+  assert (L1 : len (splice (mem s) 0 (attr_build (set_writef a 15))) = len (mem s))
+    by (apply len_splice; rewrite ?attr_build_len; lia).
+  destruct (apply_cmds_shape 1 (1 + nblk (len d)) ltac:(lia) (firstn j (plan_data a d))
+              (splice (mem s) 0 (attr_build (set_writef a 15)))) as (A & B & _).
+  { apply Forall_firstn. rewrite L1. rewrite Forall_forall in *. intros c Hc. eapply cmd_ok_shape; auto. }
+  split; [lia|]. change (16 * 1) with 16 in B. rewrite B. rewrite splice0.
+  change 16 with (len (attr_build (set_writef a 15))) at 1. apply take_app_len.
+Qed.
+
+Lemma fresh_mid s a mk : t3_wf s a -> len mk = len (mem s) -> take 16 mk = attr_build (set_writef a 15) ->
+  exists w c x, dev_fresh mk = Ok (Ndef false w c x).
+Proof.
+  intros W HL HT. destruct (wf_basic s a W) as (B1 & B2 & B3 & B4). unfold dev_fresh.
+  destruct (H_fresh mk) as (F1 & F2 & F3).
+  set (a1 := set_writef a 15).
+  assert (Ha1 : attr_parse (take 16 mk) = Some a1).
+  { rewrite HT. apply attr_roundtrip. destruct (wf_aok s a W) as (? & ? & ? & ? & ? & ? & ?). unfold a1, attrs_ok. cbn. lia. }
+  destruct W.
+  rewrite (read_ndef_dev _ a1); rewrite ?F2, ?F3; cbn [fst]; auto; try (unfold a1; cbn; lia).
+  - unfold attr_readable. change (a_writef a1) with 15. cbn [Z.eqb andb]. eauto.
+  - change (a_ln a1) with (a_ln a). lia.
+  - change (a_ln a1) with (a_ln a). rewrite HL. lia.
+Qed.
+
+Theorem t3_cut_safe_dev s a d old : t3_wf s a -> len d <= a_nmaxb a * 16 -> 0 <= bud s ->
+  let k := bud s in
+  let n := Z.of_nat (length (t3_plan a d)) in
+  exists r s', set_octets S rd wr (Ndef true true (a_nmaxb a * 16) old) s d = (r, s') /\ inv s' /\
+    (k = 0 -> mem s' = mem s) /\
+    (0 < k < n -> exists w c x, dev_fresh (mem s') = Ok (Ndef false w c x)) /\
+    (n <= k -> dev_fresh (mem s') = Ok (Ndef true true (a_nmaxb a * 16) d)).
+Proof.
+  intros W Hd Hk k n.
+  assert (Hset : set_octets S rd wr (Ndef true true (a_nmaxb a * 16) old) s d = write_ndef S rd wr s d).
+  { unfold set_octets. cbn [negb]. now replace (len d >? a_nmaxb a * 16) with false by lia. }
+  rewrite Hset. destruct (Z.eq_dec k 0) as [Hk0|Hk0].
+  - exists (Crash TypeErr), s. rewrite (write_ndef_dead s a d W Hk0).
+    split; [reflexivity|]. split; [apply (wf_inv s a W)|]. split; [auto|]. split; [intro; lia|].
+    intro. exfalso. subst n. rewrite plan_length in *. lia.
+  - destruct (write_ndef_run s a d W) as (s' & r & Hw & Hi & Hm); [lia | exact Hk0 |].
+    exists r, s'. split; [exact Hw|]. split; [exact Hi|]. fold k n in Hm.
+    replace (k <? 0) with false in Hm by lia. cbn [orb] in Hm.
+    split; [lia|]. split.
+    + intro Hkn. replace (n <=? k) with false in Hm by lia. destruct Hm as (_ & Hm).
+      destruct (mid_mem s a d (Z.to_nat k) W) as (L & T); [lia | lia |]. rewrite Hm. eapply fresh_mid; eauto.
+    + intro Hkn. replace (n <=? k) with true in Hm by lia. destruct Hm as (_ & Hm). rewrite Hm.
+      apply fresh_after_write; [exact W | lia].
+Qed.
+
+(* ------------------------------------------------------------ C03: write frame *)
+Theorem t3_write_frame_dev s a d old : t3_wf s a -> len d <= a_nmaxb a * 16 ->
+  let hi := 1 + nblk (len d) in
+  hi <= 1 + a_nmaxb a /\
+  (* every command of the plan addresses only block 0 and blocks 1 .. ceil(len/16) *)
+  Forall (fun c => Forall (fun b => 0 <= b < hi) (fst c)) (t3_plan a d) /\
+  (* whatever the cut point, the effect on the memory is that of a prefix of the plan and nothing at or beyond block hi changes *)
+  exists r s', set_octets S rd wr (Ndef true true (a_nmaxb a * 16) old) s d = (r, s') /\
+    (exists j, mem s' = apply_cmds (mem s) (firstn j (t3_plan a d))) /\
+    len (mem s') = len (mem s) /\ drop (16 * hi) (mem s') = drop (16 * hi) (mem s).
+Proof.
+  intros W Hd hi. destruct (wf_basic s a W) as (B1 & B2 & B3 & B4). pose proof (len_nonneg d) as H0.
+  destruct (t3_plan_ok s a d W) as (P1 & P2 & P3); [lia|].
+  split; [unfold hi, nblk; lia|]. split; [exact P2|].
+  assert (Hset : set_octets S rd wr (Ndef true true (a_nmaxb a * 16) old) s d = write_ndef S rd wr s d).
+  { unfold set_octets. cbn [negb]. now replace (len d >? a_nmaxb a * 16) with false by lia. }
+  rewrite Hset.
+  assert (Hpre : forall j, len (apply_cmds (mem s) (firstn j (t3_plan a d))) = len (mem s) /\
+                           drop (16 * hi) (apply_cmds (mem s) (firstn j (t3_plan a d))) = drop (16 * hi) (mem s)).
+  { intro j. destruct (apply_cmds_shape 0 hi ltac:(lia) (firstn j (t3_plan a d)) (mem s)) as (A & _ & C); [|auto].
+    apply Forall_firstn. rewrite Forall_forall in *. intros c Hc. eapply cmd_ok_shape; auto. }
+  destruct (Z.eq_dec (bud s) 0) as [Hk0|Hk0].
+  - exists (Crash TypeErr), s. rewrite (write_ndef_dead s a d W Hk0). repeat split; auto. exists 0%nat. reflexivity.
+  - destruct (write_ndef_run s a d W) as (s' & r & Hw & Hi & Hm); [lia | exact Hk0 |].
+    exists r, s'. split; [exact Hw|].
+    destruct ((bud s <? 0) || (Z.of_nat (length (t3_plan a d)) <=? bud s)).
+    + destruct Hm as (_ & ->). rewrite <- P3. specialize (Hpre (length (t3_plan a d))). rewrite firstn_all in Hpre.
+      split; [exists (length (t3_plan a d)); now rewrite firstn_all | exact Hpre].
+    + destruct Hm as (_ & ->). split; [eexists; reflexivity | apply Hpre].
+Qed.
+End Dev.
+
+(* ============================================================ instance: the passive tag *)
+Definition pt_inv (MR MW : Z) (t : ptag) : Prop := p_maxr t = MR /\ p_maxw t = MW /\ p_rw t = true.
+Definition pt_fresh_of (MR MW : Z) (m : list Z) : ptag := mkPtag m MR MW true (-1) [].
+
+Lemma p_read_ok MR MW t bl : pt_inv MR MW t -> p_budget t <> 0 -> rd_ok (len (p_mem t)) MR bl ->
+  p_read t bl = (Ok (flat_map (blk_get (p_mem t)) bl), t).
+Proof.
+  intros (I1 & I2 & I3) Hb (Hn & H80 & Hf). unfold p_read.
+  destruct (rd_frame_ok p_idm bl) as (f & ->); [reflexivity | eapply Forall_impl; [|exact Hf]; cbn; intros; lia | lia |].
+  unfold p_dead. replace (p_budget t =? 0) with false by lia.
+  assert (Hfb : forallb (blk_ok (p_mem t)) bl = true).
+  { apply forallb_forall. intros x Hx. rewrite Forall_forall in Hf. specialize (Hf x Hx). unfold blk_ok, nblocks. lia. }
+  rewrite Hfb, I1. replace ((1 <=? len bl) && (len bl <=? MR) && true) with true by lia. reflexivity.
+Qed.
+Lemma p_read_dead MR MW t : pt_inv MR MW t -> p_budget t = 0 -> p_read t [0] = (Err (TagCommandError 0), t).
+Proof.
+  intros _ Hb. unfold p_read.
+  destruct (rd_frame_ok p_idm [0]) as (f & ->); [reflexivity | constructor; [lia | constructor] | cbn; lia |].
+  unfold p_dead. now replace (p_budget t =? 0) with true by lia.
+Qed.
+Lemma p_write_ok MR MW t c : pt_inv MR MW t -> p_budget t <> 0 -> cmd_ok (len (p_mem t)) MW c ->
+  exists t', p_write t (fst c) (snd c) = (Ok tt, t') /\ pt_inv MR MW t' /\ p_mem t' = apply_cmd (p_mem t) c /\
+             p_budget t' = (if p_budget t <? 0 then p_budget t else p_budget t - 1).
+Proof.
+  destruct c as [bl d]. intros (I1 & I2 & I3) Hbud (Hf & Hn & Hb & Hd). cbn [fst snd] in *. unfold p_write.
+  destruct (Hf p_idm eq_refl) as (f & ->).
+  unfold p_dead. replace (p_budget t =? 0) with false by lia. rewrite I3.
+  assert (Hfb : forallb (blk_ok (p_mem t)) bl = true).
+  { apply forallb_forall. intros x Hx. rewrite Forall_forall in Hb. specialize (Hb x Hx). unfold blk_ok, nblocks. lia. }
+  rewrite Hfb, I2. replace (true && (1 <=? len bl) && (len bl <=? MW) && true && (len d =? 16 * len bl)) with true by lia.
+  eexists. split; [reflexivity|]. cbn. unfold pt_inv. cbn. auto.
+Qed.
+Lemma p_write_dead MR MW t c : pt_inv MR MW t -> p_budget t = 0 -> cmd_ok (len (p_mem t)) MW c ->
+  p_write t (fst c) (snd c) = (Err (TagCommandError 0), t).
+Proof.
+  intros _ Hb (Hf & _). unfold p_write. destruct (Hf p_idm eq_refl) as (f & ->).
+  unfold p_dead. now replace (p_budget t =? 0) with true by lia.
+Qed.
+Lemma pt_fresh_ok MR MW m : pt_inv MR MW (pt_fresh_of MR MW m) /\ p_mem (pt_fresh_of MR MW m) = m /\ p_budget (pt_fresh_of MR MW m) = -1.
+Proof. unfold pt_inv, pt_fresh_of. cbn. auto. Qed.
+
+Definition pt_wf (t : ptag) (a : attrs) : Prop :=
+  t3_wf ptag p_mem (pt_inv (p_maxr t) (p_maxw t)) (p_maxr t) (p_maxw t) t a.
+
+Lemma pt_fresh_dev MR MW m : dev_fresh ptag p_read (pt_fresh_of MR MW) m = pt_fresh m MR MW true.
+Proof. reflexivity. Qed.
+
+Theorem t3_write_read_pt t a d : pt_wf t a -> p_budget t < 0 -> len d <= a_nmaxb a * 16 ->
   exists old t',
     pt_read_ndef t = (Ok (Ndef true true (a_nmaxb a * 16) old), t) /\
     pt_set_octets (Ndef true true (a_nmaxb a * 16) old) t d = (Ok tt, t') /\
-    pt_fresh (p_mem t') (p_maxr t') (p_maxw t') (p_rw t') = Ok (Ndef true true (a_nmaxb a * 16) d).
+    pt_fresh (p_mem t') (p_maxr t) (p_maxw t) true = Ok (Ndef true true (a_nmaxb a * 16) d).
 Proof.
-  intros W Hb Hd. eexists. 
-  destruct (pt_write_ndef_run t a d W) as (t' & r & Hw & Hs & Hm & _); [lia | lia |].
-  exists t'. split; [apply t3_initial_read; [exact W | lia]|].
-  replace ((p_budget t <? 0) || _) with true in Hm by lia. destruct Hm as (-> & Hm).
-  split.
-  - unfold pt_set_octets, set_octets. cbn [negb]. replace (len d >? a_nmaxb a * 16) with false by lia. exact Hw.
-  - destruct Hs as (-> & -> & ->). rewrite Hm. apply fresh_after_write; [exact W | lia].
+  intros W Hb Hd.
+  eapply (t3_write_read_dev ptag p_read p_write p_mem p_budget (pt_inv (p_maxr t) (p_maxw t)) (p_maxr t) (p_maxw t)
+            (pt_fresh_of (p_maxr t) (p_maxw t))); eauto using p_read_ok, p_read_dead, p_write_ok, p_write_dead, pt_fresh_ok.
 Qed.
-
-Theorem t3_capacity_sound_pt t a : t3_wf t a -> 16 + a_nmaxb a * 16 <= len (p_mem t).
-Proof. intro W. pose proof (wf_blocks t a W). lia. Qed.
-
-Theorem t3_oversize_rejected_pt t r cap old d : len d > cap ->
-  pt_set_octets (Ndef r true cap old) t d = (Err ValueError, t).
+Theorem t3_capacity_sound_pt t a : pt_wf t a -> 16 + a_nmaxb a * 16 <= len (p_mem t).
+Proof. intro W. pose proof (wf_blocks ptag p_mem _ _ _ t a W). lia. Qed.
+Theorem t3_oversize_rejected_pt t r cap old d : len d > cap -> pt_set_octets (Ndef r true cap old) t d = (Err ValueError, t).
 Proof. intro H. unfold pt_set_octets, set_octets. cbn [negb]. now replace (len d >? cap) with true by lia. Qed.
+Theorem t3_cut_safe_pt t a d old : pt_wf t a -> len d <= a_nmaxb a * 16 -> 0 <= p_budget t ->
+  let k := p_budget t in
+  let n := Z.of_nat (length (t3_plan a d)) in
+  exists r t', pt_set_octets (Ndef true true (a_nmaxb a * 16) old) t d = (r, t') /\ pt_inv (p_maxr t) (p_maxw t) t' /\
+    (k = 0 -> p_mem t' = p_mem t) /\
+    (0 < k < n -> exists w c x, pt_fresh (p_mem t') (p_maxr t) (p_maxw t) true = Ok (Ndef false w c x)) /\
+    (n <= k -> pt_fresh (p_mem t') (p_maxr t) (p_maxw t) true = Ok (Ndef true true (a_nmaxb a * 16) d)).
+Proof.
+  intros W Hd Hk.
+  eapply (t3_cut_safe_dev ptag p_read p_write p_mem p_budget (pt_inv (p_maxr t) (p_maxw t)) (p_maxr t) (p_maxw t)
+            (pt_fresh_of (p_maxr t) (p_maxw t))); eauto using p_read_ok, p_read_dead, p_write_ok, p_write_dead, pt_fresh_ok.
+Qed.
+Theorem t3_write_frame_pt t a d old : pt_wf t a -> len d <= a_nmaxb a * 16 ->
+  let hi := 1 + nblk (len d) in
+  hi <= 1 + a_nmaxb a /\
+  Forall (fun c => Forall (fun b => 0 <= b < hi) (fst c)) (t3_plan a d) /\
+  exists r t', pt_set_octets (Ndef true true (a_nmaxb a * 16) old) t d = (r, t') /\
+    (exists j, p_mem t' = apply_cmds (p_mem t) (firstn j (t3_plan a d))) /\
+    len (p_mem t') = len (p_mem t) /\ drop (16 * hi) (p_mem t') = drop (16 * hi) (p_mem t).
+Proof.
+  intros W Hd.
+  eapply (t3_write_frame_dev ptag p_read p_write p_mem p_budget (pt_inv (p_maxr t) (p_maxw t)) (p_maxr t) (p_maxw t));
+    eauto using p_read_ok, p_read_dead, p_write_ok, p_write_dead, pt_fresh_ok.
+Qed.
